@@ -68,7 +68,7 @@ class Ctx:
     def log(self, *a):
         s = ' '.join(str(x) for x in a)
         self.log_lines.append(s)
-        print(f'[{self.pid}] {s}', flush=True)
+        print(f'[{self.pid} {time.time()-self.t0:6.1f}s] {s}', flush=True)
 
     @property
     def thorough(self):
@@ -184,7 +184,7 @@ class Ctx:
             raise Broken('correspondence', f'model evaluation {name}.v failed', out[-3000:])
         return out
 
-    def coq_eval_many(self, named_bodies, timeout=600, par=8):
+    def coq_eval_many(self, named_bodies, timeout=600, par=14):
         """Evaluate several case files in parallel. Returns {name: stdout}."""
         from concurrent.futures import ThreadPoolExecutor
         res = {}
@@ -234,6 +234,18 @@ class Ctx:
         """A concrete input/history on which the IMPLEMENTATION violates the property."""
         self.violations.append(dict(what=what, witness=witness))
         self.log('violation on implementation:', what)
+
+    def guard(self, name, fn, *a, **kw):
+        """Run an implementation-side oracle; an exception escaping from the real code on a scenario that
+        is valid (and passes on the pinned tree) is itself a concrete failing input."""
+        try:
+            return fn(*a, **kw)
+        except Broken:
+            raise
+        except Exception as E:
+            tb = traceback.format_exc()
+            self.violation(f'{name}: the implementation raised {type(E).__name__}: {E} on a valid scenario', dict(oracle=name, traceback=tb[-2500:]))
+            return None
 
     def broke(self, kind, what, detail=''):
         self.broken.append(Broken(kind, what, detail))
